@@ -9,12 +9,13 @@ NV = 5
 def gen(rng, tier):
     out = []
     NA, NB = (45, 800) if tier == "quick" else (700, 4000)     # NB further inputs without the (expensive) rank / gonality questions
+    NC = 160 if tier == "quick" else 1500                       # of which NC small multigraphs asked for their gonality (both search variants) under renamings
     for it in range(NA + NB):
-        G, fam = common.random_connected_graph(rng, 2, 5 if it < NA else 6); n = G["n"]
+        G, fam = common.random_connected_graph(rng, 2, 5 if it < NA else 6) if not NA <= it < NA + NC else common.random_connected_graph(rng, 3, 5); n = G["n"]
         D = common.random_divisor(rng, G) if (it < NA or rng.random() < 0.5) else [rng.randint(-3, 4) for _ in range(n)]
         E = common.lap_apply(G, D, [rng.randint(-2, 2) for _ in range(n)]) if rng.random() < 0.5 else common.random_divisor(rng, G)
         small = common.genus(G) <= 3 and sum(D) <= 5 and max(abs(x) for x in D) <= 6
-        base = {"G": G, "D": D, "E": E, "rank": small and it < NA, "gon": n <= 4 and it < NA}
+        base = {"G": G, "D": D, "E": E, "rank": small and it < NA, "gon": (n <= 4 and it < NA) or (NA <= it < NA + NC and n <= 5 and sum(k for _, _, k in G["edges"]) <= 11)}
         for variant in range(NV):
             c = dict(base); c["variant"] = variant; c["s"] = rng.randrange(1 << 30)
             if variant == NV - 1:
@@ -42,7 +43,9 @@ def impl(c):
     out["qred"] = back(common.div_to_list(G2, q_reduction(mk(D2))))
     out["lineq"] = bool(linear_equivalence(mk(D2), mk(E2)))
     if c["rank"]: out["rank"] = R.rank(mk(D2)).rank
-    if c["gon"]: out["gon"] = gonality(common.build_impl_graph(G2, rng), find_strategies=False).gonality
+    if c["gon"]:
+        out["gon"] = gonality(common.build_impl_graph(G2, rng), find_strategies=False).gonality
+        out["gon_s"] = gonality(common.build_impl_graph(G2, rng), find_strategies=True).gonality        # the search that also collects strategies
     return out
 def model_lines(c):
     g = common.enc_graph(c["G"]); D = common.enc_list(c["D"]); n = c["G"]["n"]
@@ -57,7 +60,8 @@ def judge(c, r, mo):
         if o[k] != w: out.append({"what": "%s: verdict %s=%s, the answer for this multigraph and divisor is %s" % (tag, k, o[k], w)})
     if o["lineq"] != (mo[1][0] == "1"): out.append({"what": "%s: linear_equivalence=%s, answer %s" % (tag, o["lineq"], mo[1][0])})
     if c["rank"] and o["rank"] != int(mo[2][0]): out.append({"what": "%s: rank=%s, answer %s" % (tag, o["rank"], mo[2][0])})
-    if c["gon"] and o["gon"] != int(mo[3][0]): out.append({"what": "%s: gonality=%s, answer %s" % (tag, o["gon"], mo[3][0])})
+    for k in ("gon", "gon_s"):
+        if c["gon"] and o[k] != int(mo[3][0]): out.append({"what": "%s: gonality%s=%s, answer %s" % (tag, " (find_strategies=True)" if k == "gon_s" else "", o[k], mo[3][0])})
     mins = common.min_vertices(c["D"]); cands = [[int(x) for x in line[2:2 + n]] for line in mo[4:]]
     if "perm" in c and len(mins) > 1:
         if o["qred"] not in cands: out.append({"what": "%s: reduced divisor %s is not a q-reduced representative for a minimum-degree sink" % (tag, o["qred"])})
@@ -70,7 +74,7 @@ def oracle(c, r):
     if (o["plain"], o["opt"], o["isw"]) != (w, w, w): why.append("winnability %s, truth %s" % ((o["plain"], o["opt"], o["isw"]), w))
     if o["lineq"] != O.lin_equiv(m, c["D"], c["E"]): why.append("linear equivalence wrong")
     if c["rank"] and o["rank"] != O.rank(m, c["D"]): why.append("rank wrong")
-    if c["gon"] and o["gon"] != O.gonality(m): why.append("gonality wrong")
+    if c["gon"] and (o["gon"] != O.gonality(m) or o.get("gon_s") != O.gonality(m)): why.append("gonality wrong")
     if not any(o["qred"] == O.qreduce(m, c["D"], q) for q in common.min_vertices(c["D"])): why.append("reduced divisor is not a reduced representative")
     return {"violates": bool(why), "why": why, "note": "two presentations of one input that answer differently are themselves the replay"}
 def nontrivial(cases): return len({str((c["G"]["edges"], c["D"])) for c in cases if any(k > 1 for _, _, k in c["G"]["edges"]) or c["D"].count(min(c["D"])) > 1})
